@@ -23,4 +23,4 @@ def run(ctx):
         "durations are whole milliseconds >= 0",
         "a reverse read since an offset beyond top+1 is outside the statement (code returns nothing; recorded quirk)",
     ]
-    H.run_hist(ctx, "c17", "drv_c17", "props/C17/corpus.ops", "props/C17/findings.json", 1000, 12000)
+    H.run_hist(ctx, "c17", "drv_c17", "props/C17/corpus.ops", "props/C17/findings.json", 1000, 30000)
